@@ -26,24 +26,32 @@ ToSetOf(s) == {s[i]: i \in 1..Len(s)}
 ListedExpected(r) ==
   {NodeOf(r, Kinds[r.entries[i]].sysfs): i \in {j \in 1..Len(r.entries):
        LET e == Kinds[r.entries[j]]  s == Single[r.entries[j]] IN Len(s.devs) = 1 /\ s.devs[1].kbd /\ ~IsVirtual(e)}}
+\* What the binary selected is read from its --verbose text. That reading is only trusted where the text is consistent with itself - the number of
+\* devices it announces ("Remapping N devices") is the number of devices read off its listing / not reported as skipped; where it is not (a reworded
+\* message, or a binary whose text and deeds differ) the path counts as not observed here (an AUX line) and selection on it is judged where the devices
+\* are actually opened (FleetTrace.tla, SupervisorTrace.tla).
+ObsAll(r) == r.n_all = Len(r.sel_all)
+ObsDev(r) == r.nodes # <<>> /\ r.n_dev = Len(r.sel_dev)
+ObsAlt(r) == r.nodes # <<>> /\ r.n_alt = Len(r.sel_alt)
+Seen(r) == (IF ObsAll(r) THEN ToSetOf(r.sel_all) ELSE {}) \cup (IF ObsDev(r) THEN ToSetOf(r.sel_dev) ELSE {})
 Verdict(r) ==
   (IF r.panicked THEN {"C16-binary-panics"} ELSE {})
-  \cup (IF \E i \in 1..Len(r.entries): IsVirtual(Kinds[r.entries[i]]) /\ NodeOf(r, Kinds[r.entries[i]].sysfs) \in ToSetOf(r.sel_all) \cup ToSetOf(r.sel_dev)
+  \cup (IF \E i \in 1..Len(r.entries): IsVirtual(Kinds[r.entries[i]]) /\ NodeOf(r, Kinds[r.entries[i]].sysfs) \in Seen(r)
         THEN {"C16-virtual-device-selected"} ELSE {})
   \cup (IF \E i \in 1..Len(r.entries): Excluded(NameOf(Kinds[r.entries[i]]), r.excludes) /\ Listed(Kinds[r.entries[i]])
-                                        /\ NodeOf(r, Kinds[r.entries[i]].sysfs) \in ToSetOf(r.sel_all) \cup ToSetOf(r.sel_dev)
+                                        /\ NodeOf(r, Kinds[r.entries[i]].sysfs) \in Seen(r)
         THEN {"C16-excluded-device-selected"} ELSE {})
-  \cup (IF ToSetOf(r.sel_all) # Expected(r) THEN {"C16-selection-all-keyboards"} ELSE {})
-  \cup (IF r.nodes # <<>> /\ ToSetOf(r.sel_dev) # Expected(r) THEN {"C16-selection-dev-file"} ELSE {})
+  \cup (IF ObsAll(r) /\ ToSetOf(r.sel_all) # Expected(r) THEN {"C16-selection-all-keyboards"} ELSE {})
+  \cup (IF ObsDev(r) /\ ToSetOf(r.sel_dev) # Expected(r) THEN {"C16-selection-dev-file"} ELSE {})
   \* whichever way the device is named: through a symlink under /dev/input/by-id, or with a doubled slash
-  \cup (IF r.nodes # <<>> /\ ToSetOf(r.sel_alt) # Expected(r) THEN {"C16-selection-dev-file-by-other-name"} ELSE {})
-  \cup (IF r.nodes # <<>> /\ r.n_alt # Len(r.sel_alt) THEN {"C16-selected-count"} ELSE {})
+  \cup (IF ObsAlt(r) /\ ToSetOf(r.sel_alt) # Expected(r) THEN {"C16-selection-dev-file-by-other-name"} ELSE {})
   \* the third way through the command line: --auto-all-keyboards (the devices the supervisor goes on to open in its first round)
   \cup (IF "sel_auto" \in DOMAIN r /\ r.auto_seen /\ ToSetOf(r.sel_auto) # Expected(r) THEN {"C16-selection-auto-all-keyboards"} ELSE {})
   \cup (IF "sel_auto" \in DOMAIN r /\ r.panicked_auto THEN {"C16-binary-panics"} ELSE {})
   \* list_keyboards shows every keyboard outside the virtual tree (exclusion does not apply there)
   \cup (IF ToSetOf(r.listed) # ListedExpected(r) THEN {"C16-list_keyboards"} ELSE {})
-  \cup (IF r.n_all # Len(r.sel_all) \/ (r.nodes # <<>> /\ r.n_dev # Len(r.sel_dev)) THEN {"C16-selected-count"} ELSE {})
+Unobserved(r) == (IF ObsAll(r) THEN {} ELSE {"all-keyboards"}) \cup (IF r.nodes = <<>> \/ ObsDev(r) THEN {} ELSE {"dev-file"}) \cup (IF r.nodes = <<>> \/ ObsAlt(r) THEN {} ELSE {"dev-file-by-other-name"})
+ASSUME \A i \in 1..Len(Res): Unobserved(Res[i]) # {} => PrintT(<<"AUX", Res[i].id, "the binary's --verbose text is not consistent with itself on these paths (not judged here)", Unobserved(Res[i])>>)
 Judge(i) == LET r == Res[i]  v == Verdict(r) IN
             v # {} => PrintT(<<IF v \subseteq KnownIds THEN "KNOWN" ELSE "BAD", r.id, v>>)
 ASSUME \A i \in 1..Len(Res): Judge(i)
